@@ -5,6 +5,7 @@ package searchset
 import (
 	"fmt"
 	"strings"
+	"sync/atomic"
 	"testing"
 	"unicode"
 	"unicode/utf8"
@@ -59,9 +60,24 @@ func vCheckTokens(s string) string {
 }
 
 // vCheckCandidates verifies the candidate invariants for a (source, target) pair.
+// vListsOutOfOrder counts candidate LISTS whose candidates do not follow each other
+// in target order. Observation only (reported in the evidence, never a verdict): the
+// statement orders the ranges of each candidate; the relative order of the candidates
+// is not observable through the classifier, which ranks matches itself.
+var vListsOutOfOrder, vListsSeen int64
+
 func vCheckCandidates(src, tgt string) (string, int) {
 	ss, ts := New(src, DefaultGranularity), New(tgt, DefaultGranularity)
 	mrs := FindPotentialMatches(ss, ts)
+	if len(mrs) > 1 {
+		atomic.AddInt64(&vListsSeen, 1)
+		for i := 1; i < len(mrs); i++ {
+			if len(mrs[i]) > 0 && len(mrs[i-1]) > 0 && mrs[i][0].TargetStart < mrs[i-1][0].TargetStart {
+				atomic.AddInt64(&vListsOutOfOrder, 1)
+				break
+			}
+		}
+	}
 	for ci, mr := range mrs {
 		if len(mr) == 0 {
 			return fmt.Sprintf("candidate %d is empty", ci), len(mrs)
@@ -193,6 +209,8 @@ func TestVerifC17(t *testing.T) {
 				ncand += n
 			}
 			e.count("pairs", int64(per))
+			e.count("observed_candidate_lists_with_several_candidates", atomic.SwapInt64(&vListsSeen, 0))
+			e.count("observed_candidate_lists_not_in_target_order", atomic.SwapInt64(&vListsOutOfOrder, 0))
 			e.count("candidates_checked", int64(ncand))
 			if ncand > 0 {
 				cs.nontrivial("cand", cs.idx)
